@@ -72,7 +72,7 @@ class Context(object):
     self.known_hits = {}       # key -> what
     self.known = load_known().get(prop, {})
     self.notes = []
-    self.max_reports = 5
+    self.max_reports = 40
 
   @property
   def thorough(self):
@@ -230,8 +230,14 @@ def pmap(fn, args, fresh=False, procs=None, chunksize=1):
     out = [_call((fn, a)) for a in args]
   else:
     ctx = multiprocessing.get_context('fork')
+    limit = float(os.environ.get('VERIF_PMAP_TIMEOUT', '5400'))
     with ctx.Pool(procs, initializer=_pin, maxtasksperchild=1 if fresh else None) as pool:
-      out = pool.map(_call, [(fn, a) for a in args], chunksize=1 if fresh else chunksize)
+      job = pool.map_async(_call, [(fn, a) for a in args], chunksize=1 if fresh else chunksize)
+      try:
+        out = job.get(limit)
+      except multiprocessing.TimeoutError:
+        pool.terminate()
+        raise HarnessError('worker pool did not finish within %ds (a worker died or hung) in %s' % (limit, getattr(fn, '__name__', fn)))
   res = []
   for kind, val in out:
     if kind != 'ok':
